@@ -54,6 +54,7 @@ type awaiter struct {
 	errCh     chan error
 	errSent   error
 	errClosed bool
+	errNil    bool // a nil error was delivered on the error channel (the channel fired)
 	cancelCh  chan struct{}
 	ccFired   bool
 }
@@ -81,6 +82,8 @@ type world struct {
 
 // slot is one thing that was put in the container: a promise (possibly nil) or a direct result.
 type slot struct {
+	// alias: this slot re-installs the promise object of an earlier slot (results are looked up there)
+	alias *slot
 	// resolvedAt: stamp taken just before the promise was resolved (0 = resolved before it was installed)
 	resolvedAt int
 	p          *promise.Promise[int] // nil for SetPromise(nil) and for SetResult
@@ -139,6 +142,12 @@ func (w *world) await(x *awaiter, target promise.PromiseLike[int]) {
 func (w *world) fire(x *awaiter, pick int) {
 	c := w.c
 	if x.errCh != nil && pick != 0 {
+		if c.S.FaultP(250) {
+			x.errNil = true
+			c.S.Count("fault:errch-nil")
+			x.errCh <- nil
+			return
+		}
 		if pick == 1 {
 			x.errSent = errors.New("errch-error")
 			c.S.Count("fault:errch-error")
@@ -170,6 +179,8 @@ func (w *world) checkReturn(x *awaiter, v int, err error, ret int) {
 			return
 		case err != nil && err == x.errSent:
 			return
+		case err == nil && x.errNil:
+			return // the error channel delivered nil: the await ends with (zero, nil)
 		case err == nil && w.cont && x.form == 2 && x.ccFired:
 			return // documented: the container's AwaitWithCancelCh returns (zero, nil) once the cancel channel fired
 		}
@@ -193,7 +204,7 @@ func (w *world) checkReturn(x *awaiter, v int, err error, ret int) {
 		return
 	}
 	for _, wr := range w.hist.Writes {
-		s := wr.Val.(*slot)
+		s := wr.Val.(*slot).root()
 		// the promise must have been current at a moment of the call at which it already had its result
 		from := x.inv
 		if s.resolvedAt > from {
@@ -238,7 +249,27 @@ func (w *world) containerSetter(id, nops int) {
 	c := w.c
 	for i := 0; i < nops; i++ {
 		w.gate()
-		switch c.S.Plan(6) {
+		k := c.S.Plan(7)
+		if k == 6 {
+			// re-install an earlier, still unresolved promise object (A -> B -> A)
+			var old *slot
+			for _, wr := range w.hist.Writes {
+				if sl := wr.Val.(*slot); sl.p != nil && sl.alias == nil && sl.res == nil {
+					old = sl
+				}
+			}
+			if old == nil {
+				k = 3
+			} else {
+				c.Descf("csetter %d: SetPromise(an earlier, unresolved promise again)", id)
+				c.S.Count("probe:promise-reinstalled")
+				wr := w.hist.Begin(c, &slot{p: old.p, alias: old})
+				w.pc.SetPromise(old.p)
+				wr.End(c)
+				continue
+			}
+		}
+		switch k {
 		case 0: // SetPromise(nil)
 			c.Descf("csetter %d: SetPromise(nil)", id)
 			wr := w.hist.Begin(c, &slot{nilP: true})
@@ -274,6 +305,13 @@ func (w *world) containerSetter(id, nops int) {
 	}
 }
 
+func (s *slot) root() *slot {
+	for s.alias != nil {
+		s = s.alias
+	}
+	return s
+}
+
 // current returns the slots that may be the container's current content at a quiescent point.
 func (w *world) currentSlot() *slot {
 	// at a quiescent point no write is in flight, and writes are totally ordered by their return stamps
@@ -295,7 +333,7 @@ func (w *world) currentSlot() *slot {
 			return nil
 		}
 	}
-	return last.Val.(*slot)
+	return last.Val.(*slot).root()
 }
 
 func (w *world) checkQuiescent() {
@@ -308,7 +346,7 @@ func (w *world) checkQuiescent() {
 			c.Fail("C11.Q.cancelled-awaiter-blocked", "awaiter %d (form %d, container=%v) is blocked at a quiescent point although its context was cancelled", x.id, x.form, w.cont)
 			return
 		}
-		if x.errSent != nil || x.errClosed {
+		if x.errSent != nil || x.errClosed || x.errNil {
 			c.Fail("C11.Q.errch-ignored", "awaiter %d (AwaitWithErrCh, container=%v) is blocked at a quiescent point although its error channel fired", x.id, w.cont)
 			return
 		}
